@@ -166,6 +166,9 @@ Definition keeps_opts (c : cfg) (o : op) : bool :=
   | _ => true
   end.
 
+Lemma observers_in_history : forall c s k, step s (OObserve k) = s /\ keeps_opts c (OObserve k) = true.
+Proof. intros. split; reflexivity. Qed.
+
 Lemma skind_eqb_eq : forall a b, skind_eqb a b = true -> a = b.
 Proof. intros [] []; cbn; congruence. Qed.
 Lemma obool_is_upd : forall o b, obool_is o b = true -> upd o b = b.
@@ -184,6 +187,7 @@ Proof.
   - cbn. auto.
   - cbn. auto.
   - unfold forward. cbn [meth pe tr]. destruct (c_meth c); cbn; auto.
+  - cbn. auto.
   - cbn. auto.
 Qed.
 
